@@ -2,7 +2,8 @@
 
 (a) intrinsic operator / constraint expressions: shared with C24 (imported and re-run under this property id);
 (b) index comparators: every `struct t_comparator_N` the real `souffle -g` emits for relations over i/u/f attribute
-    combinations and several column orders (arity <= 3), cut verbatim from the generated C++: strict weak order,
+    combinations and several column orders (arity <= 3: DirectRelation; arity 7: IndirectRelation, whose comparators
+    take pointers to tuples), cut verbatim from the generated C++: strict weak order,
     operator()/less/equal mutually consistent, equal to the typed lexicographic order over the index's column order,
     same tuple identity as the interpreter's index comparator (index_utils::comparator, cut from interpreter/Util.h);
 (c) range-bound padding: the emitted `lowerUpperRange_*` member function (verbatim) is compiled against an abstract
@@ -29,8 +30,10 @@ TY = {"i": "number", "u": "unsigned", "f": "float"}
 # ------------------------------------------------------------------------------------------------------------------
 # generated program: relations, search patterns (one rule per pattern), aggregates
 # ------------------------------------------------------------------------------------------------------------------
-EDB = {"e_iuf": "iuf", "e_fui": "fui", "e_ufi": "ufi", "e_uf": "uf", "e_fi": "fi", "e_iu": "iu", "e_ff": "ff", "e_f": "f", "e_i": "i", "e_u": "u"}
-SRC = {"s1i": "i", "s1u": "u", "s1f": "f", "s2iu": "iu", "s2uf": "uf", "s2fi": "fi", "s2ff": "ff", "s2ii": "ii"}
+EDB = {"e_iuf": "iuf", "e_fui": "fui", "e_ufi": "ufi", "e_uf": "uf", "e_fi": "fi", "e_iu": "iu", "e_ff": "ff", "e_f": "f", "e_i": "i", "e_u": "u",
+       # wide relations (arity > 6): the synthesiser's IndirectRelation class (comparators over tuple pointers, own range code)
+       "w_iiiiiiu": "iiiiiiu", "w_ifiuiii": "ifiuiii", "w_uiifiif": "uiifiif"}
+SRC = {"s1i": "i", "s1u": "u", "s1f": "f", "s2iu": "iu", "s2uf": "uf", "s2fi": "fi", "s2ff": "ff", "s2ii": "ii", "s2if": "if", "s2uf2": "uf"}
 # rule: (name, source relation, edb relation, constraints [(edb column, op, source column)]); op in eq/le/ge
 RULES = [
     ("o1", "s1i", "e_iuf", [(0, "eq", 0)]),
@@ -51,7 +54,18 @@ RULES = [
     ("o16", "s1i", "e_i", [(0, "ge", 0)]),
     ("o17", "s1u", "e_u", [(0, "le", 0)]),
     ("o18", "s2ii", "e_iuf", [(0, "ge", 0), (0, "le", 1)]),
+    # wide relations: equality on the first attribute; ranges on non-first unsigned / float attributes (non-identity index orders)
+    ("o19", "s1i", "w_iiiiiiu", [(0, "eq", 0)]),
+    ("o20", "s1u", "w_iiiiiiu", [(6, "ge", 0)]),
+    ("o21", "s1i", "w_ifiuiii", [(0, "eq", 0)]),
+    ("o22", "s1f", "w_ifiuiii", [(1, "le", 0)]),
+    ("o23", "s2iu", "w_ifiuiii", [(2, "eq", 0), (3, "ge", 1)]),
+    ("o24", "s2if", "w_ifiuiii", [(0, "eq", 0), (1, "ge", 1)]),
+    ("o25", "s1u", "w_uiifiif", [(0, "eq", 0)]),
+    ("o26", "s1f", "w_uiifiif", [(6, "ge", 0)]),
+    ("o27", "s2uf2", "w_uiifiif", [(0, "le", 0), (3, "eq", 1)]),
 ]
+INTERP_ARITIES = (1, 2, 3, 7)
 AGGS = [(op, t) for op in ("min", "max", "sum") for t in "iuf"] + [("mean", "f")]
 AGG_ENUM = {("min", "i"): "MIN", ("min", "u"): "UMIN", ("min", "f"): "FMIN", ("max", "i"): "MAX", ("max", "u"): "UMAX", ("max", "f"): "FMAX",
             ("sum", "i"): "SUM", ("sum", "u"): "USUM", ("sum", "f"): "FSUM", ("mean", "f"): "MEAN"}
@@ -113,7 +127,11 @@ def cut_generated(work):
         decl, defs = blocks
         stext = K.extract_braced(decl, r"\nstruct Type \{", "struct Type of " + ns).strip() + ";\n"
         comps = re.findall(r"^struct (t_comparator_\d+)\{", stext, re.M)
-        inds = re.findall(r"^using t_ind_(\d+) = (btree_\w+)<t_tuple,(t_comparator_\d+)>;", stext, re.M)
+        inds = re.findall(r"^using t_ind_(\d+) = (btree_\w+)<(?:const t_tuple\*|t_tuple),(t_comparator_\d+)>;", stext, re.M)
+        indirect = bool(re.search(r"^using t_ind_\d+ = btree_\w+<const t_tuple\*,", stext, re.M))
+        if indirect != bool(re.search(r"operator\(\)\(const t_tuple \*a, const t_tuple \*b\)", stext)):
+            raise EngineError("index element type and comparator parameter type of %s disagree / not recognised" % ns)
+        usings = re.findall(r"^using \w+ = Type::\w+;$", defs, re.M)
         if not comps or len(comps) != len(inds):
             raise EngineError("comparators/indices of %s not recognised (%s / %s)" % (ns, comps, inds))
         orders = {}
@@ -128,6 +146,7 @@ def cut_generated(work):
         t = Gen()
         t.ns, t.attr, t.struct, t.inds, t.orders, t.rfuncs = ns, ts, stext, [(int(k), kind, c) for k, kind, c in inds], orders, rfuncs
         t.short = "%s%d" % (ts, sum(1 for x in g.types.values() if x.attr == ts))
+        t.indirect, t.usings = indirect, usings
         g.types[ns] = t
     # call sites
     g.calls = {}
@@ -276,8 +295,10 @@ def build_tu(g, icmp, initv, nested):
         out.append("namespace vs_%s {\nusing namespace souffle;\n"
                    "template <class T, class C> using btree_set = verif_model::Index<T, C>;\n"
                    "template <class T, class C> using btree_multiset = verif_model::Index<T, C>;\n"
+                   "/* storage of wide (indirect) relations is not part of the kernel: the indices order pointers to tuples */\n"
+                   "template <class T> struct Table {}; struct Lock {}; template <class I> using IterDerefWrapper = I;\n"
                    "/* ---- verbatim: struct Type emitted by the synthesiser ---- */\n%s" % (ns, t.struct))
-        out.append("".join("using t_ind_%d = Type::t_ind_%d;\n" % (k, k) for k, _, _ in t.inds) + "using iterator = Type::iterator;\nusing context = Type::context;")
+        out.append("/* ---- verbatim: using-declarations of the emitted definition block ---- */\n" + "\n".join(t.usings))
         out.append("/* ---- verbatim: emitted range functions ---- */")
         for fn, body in t.rfuncs.items():
             out.append(body)
@@ -285,11 +306,12 @@ def build_tu(g, icmp, initv, nested):
         n = len(t.attr)
         for k, kind, cmpn in t.inds:
             cid = "%s_%d" % (t.short, k)
-            tup = lambda p: "Tuple<RamDomain, %d>{{%s}}" % (n, ", ".join("%s%d" % (p, j) for j in range(n)))
+            decl = lambda p: "const Tuple<RamDomain, %d> t%s{{%s}};" % (n, p, ", ".join("%s%d" % (p, j) for j in range(n)))
+            ref = "&t%s" if t.indirect else "t%s"
             for fn, ret, call in (("cmp", "int", "c(%s, %s)"), ("less", "bool", "c.less(%s, %s)"), ("equal", "bool", "c.equal(%s, %s)")):
-                kern.append("__attribute__((noinline)) %s kc_%s_%s(%s, %s) { vs_%s::Type::%s c; return %s; }"
-                            % (ret, cid, fn, _args("a", n), _args("b", n), ns, cmpn, call % (tup("a"), tup("b"))))
-    for n in (1, 2, 3):
+                kern.append("__attribute__((noinline)) %s kc_%s_%s(%s, %s) { vs_%s::Type::%s c; %s %s return %s; }"
+                            % (ret, cid, fn, _args("a", n), _args("b", n), ns, cmpn, decl("a"), decl("b"), call % (ref % "a", ref % "b")))
+    for n in INTERP_ARITIES:
         cols = ", ".join(str(j) for j in range(n))
         tup = lambda p: "Tuple<RamDomain, %d>{{%s}}" % (n, ", ".join("%s%d" % (p, j) for j in range(n)))
         for fn, ret, call in (("cmp", "int", "c(%s, %s)"), ("less", "bool", "c.less(%s, %s)"), ("equal", "bool", "c.equal(%s, %s)")):
@@ -302,9 +324,9 @@ def build_tu(g, icmp, initv, nested):
         n, m = len(t.attr), len(SRC[src])
         kern.append("__attribute__((noinline)) bool kr_%s(%s, %s) {\n  const Tuple<RamDomain, %d> env0{{%s}};\n  vs_%s::Type rel; vs_%s::Type* rel_e = &rel; vs_%s::Type::context ctxt;\n"
                     "  /* ---- verbatim: bound tuples emitted at the call site ---- */\n  auto range = rel_e->%s(%s, ctxt);\n"
-                    "  return verif_model::member(Tuple<RamDomain, %d>{{%s}}, range);\n}"
+                    "  const Tuple<RamDomain, %d> tt{{%s}};\n  return verif_model::member(%s, range);\n}"
                     % (name, _args("e", m), _args("t", n), m, ", ".join("e%d" % j for j in range(m)), ns, ns, ns, fn, args, n,
-                       ", ".join("t%d" % j for j in range(n))))
+                       ", ".join("t%d" % j for j in range(n)), "&tt" if t.indirect else "tt"))
     for op, t in AGGS:
         name = "%s_%s" % (op, t)
         nest0, inits, fold = g.aggs[name]
@@ -318,6 +340,7 @@ def build_tu(g, icmp, initv, nested):
                     "Engine e; Shadow s; Context c; return e.initValue(ia, s, c); }" % (name, AGG_ENUM[(op, t)]))
         kern.append("__attribute__((noinline)) bool kia_%s_nested0() { using namespace verif_interp_agg; ram::IntrinsicAggregator ia; ia.kind = 1; ia.f = AggregateOp::%s; "
                     "return runNested(ia); }" % (name, AGG_ENUM[(op, t)]))
+    KERNEL_TEXT[0] = "\n".join(kern)
     out.append('using namespace souffle;\nextern "C" {\n%s\n}' % "\n".join(kern))
     return "\n".join(out)
 
@@ -399,9 +422,10 @@ def build_checks(g):
                 doms["nan"] = (_fdom(fcols_all, ("a", "b", "c"), "nan"), "cmp-float-nan")
             checks.append(Check("cmp_" + cid, "comparator", 3 * n, b, doms,
                                 "emitted %s::%s over %s, lex-order %s" % (ns, cmpn, "/".join(TY[x] for x in t.attr), order),
-                                {"relation_type": ns, "comparator": cmpn, "attribute_types": t.attr, "lex_order": order, "full_index": full}))
+                                {"relation_type": ns, "relation_class": "indirect (wide)" if t.indirect else "direct", "comparator": cmpn,
+                                 "attribute_types": t.attr, "lex_order": order, "full_index": full}))
     # interpreter comparators
-    for n in (1, 2, 3):
+    for n in INTERP_ARITIES:
         call = lambda fn, x, y: "K(kic_%d_%s(%s, %s))" % (n, fn, ", ".join("%s[%d]" % (x, j) for j in range(n)), ", ".join("%s[%d]" % (y, j) for j in range(n)))
         order = list(range(n))
         b = ["const uint32_t *a = IN, *b = IN + %d, *c = IN + %d;" % (n, 2 * n),
@@ -472,14 +496,22 @@ def _cells(text, offs):
     return re.sub(r"\b([abcet])\[(\d+)\]", lambda m: "IN[%d]" % (offs[m.group(1)] + int(m.group(2))), text)
 
 
+KERNEL_TEXT = [""]
+
+
 def checks_header(checks):
-    out = ["/* generated: checks shared by the CBMC harness and the native replay driver */", "uint32_t IN[16];"]
+    out = ["/* generated: checks shared by the CBMC harness and the native replay driver */", "uint32_t IN[32];"]
     protos = set()
     for c in checks:
         for m in re.finditer(r"\b(k[a-z]+_\w+?)\(", "\n".join(c.body)):
             protos.add(m.group(1))
     for p in sorted(protos):
-        out.append("uint32_t %s();" % p)
+        # full prototypes: bool kernels return only the low byte, and 14-argument calls need the parameter list
+        m = re.search(r"__attribute__\(\(noinline\)\) (\w+) %s\(([^)]*)\)" % re.escape(p), KERNEL_TEXT[0])
+        if not m:
+            raise EngineError("kernel %s used by a check is not defined in the wrapper TU" % p)
+        nargs = len([a for a in m.group(2).split(",") if a.strip() and a.strip() != "void"])
+        out.append("%s %s(%s);" % ("uint8_t" if m.group(1) == "bool" else "uint32_t", p, ", ".join(["uint32_t"] * nargs) or "void"))
     for c in checks:
         n3 = c.nin // 3
         offs = {"a": 0, "b": n3, "c": 2 * n3, "e": 0, "t": c.meta.get("_m", 0)}
@@ -569,7 +601,7 @@ def prepare(work):
     hdr = checks_header(checks)
     open(os.path.join(work, "c02_checks.h"), "w").write(hdr)
     # for CBMC the kernels are already declared by the translated C: drop the K&R prototypes
-    open(os.path.join(work, "c02_checks_cbmc.h"), "w").write(re.sub(r"^uint32_t k\w+\(\);\n", "", hdr, flags=re.M))
+    open(os.path.join(work, "c02_checks_cbmc.h"), "w").write(re.sub(r"^uint(?:8|32)_t k\w+\([^;{]*\);\n", "", hdr, flags=re.M))
     table = ", ".join('{"%s", "%s", %d, chk_%s, dom_%s_%s}' % (ck.cid, v, ck.nin, ck.cid, ck.cid, v.replace("-", "_")) for ck in checks for v in ck.doms)
     drv = os.path.join(work, "drv02.c")
     open(drv, "w").write(DRIVER.replace("@TABLE@", table).replace("@BV@", ", ".join("0x%xu" % v for v in c24.BOUNDARY)))
@@ -584,6 +616,8 @@ def obligations(work, checks, tier, only=None):
             name = "%s/%s/%s" % (ck.group, ck.cid, v)
             if only and only not in name:
                 continue
+            if tier == "quick" and ck.group == "comparator" and key and ck.meta.get("relation_class", "").startswith("indirect"):
+                continue   # float special-value domains (known findings) of the wide comparators: thorough tier only
             h = os.path.join(work, "h02_%s_%s.c" % (ck.cid, v.replace("-", "_")))
             txt = (HARNESS.replace("@NIN@", str(ck.nin)).replace("@CID@", ck.cid).replace("@VAR@", v.replace("-", "_"))
                    .replace("@INDECL@", "uint32_t %s;" % ", ".join("IN%d" % i for i in range(ck.nin)))
@@ -692,7 +726,7 @@ def run(tier, seed, only=None):
                 "src/interpreter/Engine.cpp", "src/include/souffle/RamTypes.h")
         res.coverage = {
             "explanation": "kernel-level agreement of compiled code and interpreter: (a) %d operator/constraint expressions (C24 machinery), "
-                           "(b) %d emitted comparators + 3 interpreter comparators, (c) %d emitted range queries against an abstract ordered-index model, "
+                           "(b) %d emitted comparators (direct and indirect relation classes) + interpreter comparators, (c) %d emitted range queries against an abstract ordered-index model, "
                            "(d) %d aggregates; one CBMC query per (kernel, float domain) over all 32-bit cells; every query has a witness twin"
                            % (len(obls_a), sum(1 for c_ in checks if c_.group == "comparator"), sum(1 for c_ in checks if c_.group == "range"),
                               sum(1 for c_ in checks if c_.group == "aggregate")),
@@ -709,7 +743,7 @@ def run(tier, seed, only=None):
             "source": {s: common.file_sha(common.repo_file(s)) for s in srcs},
             "generated_cpp_sha": g.sha,
             "relation_types": sorted(g.types),
-            "bounds": {"arity": "<= 3", "attribute_types": "i/u/f", "cells": "all 32-bit values (float special values in separate obligations)", "unwind": 6},
+            "bounds": {"arity": "<= 3 (direct relations) and 7 (indirect/wide relations)", "attribute_types": "i/u/f", "cells": "all 32-bit values (float special values in separate obligations)", "unwind": 6},
             "queries": sum((1 if o.res else 0) + (1 if o.wres else 0) for o in obls_a + obls),
             "solver_time_s": round(sum((o.res.time if o.res else 0) + (o.wres.time if o.wres else 0) for o in obls_a + obls), 1),
             "translation_validation_lines": nlines + (p24.nlines if p24 else 0),
